@@ -573,6 +573,11 @@ impl Scenario for C01Cycles {
         if feats.multiline_comments {
             cx.trigger("multi-line-block-comment");
         }
+        if feats.multi_a2ml {
+            // known finding: every A2ML block of a file stays active for all later IF_DATA
+            cx.trigger("more-than-one-a2ml-definition-active");
+            cx.probe("file-with-more-than-one-a2ml-block");
+        }
         if feats.crlf && feats.a2ml {
             cx.trigger("crlf-with-a2ml");
         }
